@@ -81,12 +81,14 @@ def relayout(a, layout):
     return a
 
 
-def oracle(e1, e2, f1, f2, a2, layout='C', ascale=1.0):
+def oracle(e1, e2, f1, f2, a2, layout='C', ascale=1.0, adtype=None):
     from emd import spectra
     fails = []
     E1, E2 = np.array(e1, dtype=float), np.array(e2, dtype=float)
     F1, F2, A2 = (relayout(np.array(v, dtype=float), layout) for v in (f1, f2, a2))
     A2 = A2 * ascale            # a power of two: the per-sample histogram scales exactly (by its square in energy mode)
+    if adtype:
+        A2 = A2.astype(adtype)  # integer-typed amplitudes (the case amplitudes are small integers): same values
     A20 = A2.copy()
     for mode in ('energy', 'amplitude'):
         H = brute(e1, e2, f1, f2, a2, mode == 'energy') * (ascale ** 2 if mode == 'energy' else ascale)
@@ -160,7 +162,7 @@ EXPR = "fun c => let '(e1, e2, f1, f2, a2) := c in run_holo e1 e2 f1 f2 a2"
 def run(ctx):
     ctx.rule = ('integer first-level frequencies [T x M] and second-level frequency/amplitude arrays [T x M x K] with values '
                 'from {below, negative, each edge, each mid-bin, last edge, above} of two independent bin sets (linear/log, '
-                '1..4 bins), handed over C-contiguous, Fortran-ordered or as transposed views of per-IMF stacks, amplitudes also multiplied by 2^-30, 2^-60, 2^20; energy+amplitude x squash_time in {False, sum, mean}; plus bin sets of 300x260, 256x256, 70x1000, 257x255 bins (product beyond 2^16) with samples in the lowest and top bins; non-trivial = some frequency out of '
+                '1..4 bins), handed over C-contiguous, Fortran-ordered or as transposed views of per-IMF stacks, amplitudes also multiplied by 2^-30, 2^-60, 2^20 or handed over as int64 / int16; energy+amplitude x squash_time in {False, sum, mean}; plus bin sets of 300x260, 256x256, 70x1000, 257x255 bins (product beyond 2^16) with samples in the lowest and top bins; non-trivial = some frequency out of '
                 'range or on an edge')
     ctx.proof(extra=['props/Prop_Tie_Spectra.v'])  # translation tie: program regenerated from the source + refinement theorems
     cases = gen_cases(ctx)
@@ -181,10 +183,13 @@ def run(ctx):
         ascale = [1.0, 1.0, 2.0 ** -30, 1.0, 2.0 ** -60, 2.0 ** 20, 1.0][idx % 7]      # amplitudes in very small / large units
         if ascale != 1.0:
             ctx.hist['amplitude-x%g' % ascale] += 1
-        fails = oracle(*c, layout=layout, ascale=ascale)
+        adtype = [None, 'int64', None, 'int16', None][idx % 5] if ascale == 1.0 else None
+        if adtype:
+            ctx.hist['amplitude-dtype-' + adtype] += 1
+        fails = oracle(*c, layout=layout, ascale=ascale, adtype=adtype)
         for site, detail in fails[:1]:
             ctx.problem('impl-violation', site, ('' if layout == 'C' else '(arrays in memory layout %s) ' % layout) + detail[:600],
-                        input=dict(freq_edges=e1, freq_edges2=e2, infr=f1, infr2=f2, inam2=a2, layout=layout, ascale=ascale))
+                        input=dict(freq_edges=e1, freq_edges2=e2, infr=f1, infr2=f2, inam2=a2, layout=layout, ascale=ascale, adtype=adtype))
         if common.hashL(out) != mh[idx] and bad is None and not fails:
             bad = idx
     for i in range(4 if ctx.quick() else 60):
@@ -208,7 +213,7 @@ def replay(rec):
         for f in fails:
             print(f)
         return bool(fails)
-    fails = oracle(i['freq_edges'], i['freq_edges2'], i['infr'], i['infr2'], i['inam2'], layout=i.get('layout', 'C'), ascale=i.get('ascale', 1.0))
+    fails = oracle(i['freq_edges'], i['freq_edges2'], i['infr'], i['infr2'], i['inam2'], layout=i.get('layout', 'C'), ascale=i.get('ascale', 1.0), adtype=i.get('adtype'))
     for f in fails:
         print(f)
     return bool(fails)
